@@ -350,6 +350,10 @@ def _do_misc(w: World, op: dict, idx: int, log: EventLog, viol: list, stats: Cou
     if kind == "set_x64":
         jax.config.update("jax_enable_x64", bool(op["value"]))
         w.user_x64 = bool(op["value"])
+        if w.x64_ctx:
+            # the user changed the GLOBAL flag inside a scoped override: that is what must be
+            # in effect once the outermost scope is left
+            w.x64_ctx[0] = (w.x64_ctx[0][0], bool(op["value"]))
         stats["set_x64"] += 1
     elif kind == "enter_x64_ctx":
         enable = getattr(jax, "enable_x64", None)
